@@ -130,9 +130,10 @@ pub fn same(what: &str, d: &DnaString, m: &[u8]) -> Result<(), String> {
             ));
         }
     }
-    let it: Seq = d.iter().collect();
-    let it2: Seq = d.into_iter().collect();
-    let it3: Seq = Mer::iter(d).collect();
+    let cap = m.len() + 8;
+    let it: Seq = d.iter().take(cap).collect();
+    let it2: Seq = d.into_iter().take(cap).collect();
+    let it3: Seq = Mer::iter(d).take(cap).collect();
     if it != m || it2 != m || it3 != m || d.to_bytes() != m {
         return Err(format!("{}: iteration / to_bytes disagree with the model", what));
     }
